@@ -3,6 +3,7 @@
 #include "rulesetgen.hpp"
 #include "samples.hpp"
 #include <atomic>
+#include <mutex>
 #include <thread>
 
 const char* PROP_ID = "C09";
@@ -25,7 +26,9 @@ static std::string fixed_rules()
       "rule re1 { strings: $r = /ab+c(d|e)?/ $w = /a.c/ wide condition: #r > 0 or $w }\n"
       "rule str1 { strings: $a = \"abc\" $b = \"MZ\" $h = { 7F 45 4C 46 } condition: #a > 1 or $b at 0 or $h at 0 }\n"
       "rule loops { strings: $a = \"abc\" condition: for any i in (1..#a) : (@a[i] % 2 == 0) and \"xyzabc\" matches /z.b/ }\n"
-      "rule size_small { condition: filesize < 64 }\n";
+      "rule size_small { condition: filesize < 64 }\n"
+      "rule hot { strings: $h = { 1f 1f } $o = \"abc\" condition: $h or $o }\n"
+      "rule slow { condition: for any i in (0..filesize \\ 64) : ( hash.checksum32(i, 64) == 0xFFFFFFFF ) }\n";
   for (int i = 0; i < 4; i++) r += strf("rule md%d { condition: tests.module_data == \"blob%d\" }\n", i, i);
   for (int i = 6; i <= 9; i++) r += strf("rule xi%d { condition: xi == %d }\n", i, i);
   r += "rule xs_a { condition: xs == \"a\" }\nrule xs_abc { condition: xs == \"abc\" }\nrule xs_long { condition: xs startswith \"long\" }\n";
@@ -46,6 +49,7 @@ struct ScanSpec
   int flags = 0;
   bool sigbus = false;  // block scan whose last block lies in a truncated file mapping
   int park_us = 0;
+  int timeout = 0;      // seconds; chosen far above what the scan needs
 };
 
 static const char* XS[] = {"abc", "a", "long-long-long-long-long-long-long-long-long-long-string"};
@@ -61,6 +65,7 @@ static std::string one_scan(ys_rules* R, const std::vector<bytes>& bufs, const S
   o.script_action = sp.script_action;
   o.with_strings = 1;
   o.yield_us = sp.yield_us;
+  o.timeout = sp.timeout;
   o.modname = "tests";
   o.moddata = BLOBS[sp.blob];
   o.moddata_len = 5;
@@ -85,11 +90,21 @@ static std::string one_scan(ys_rules* R, const std::vector<bytes>& bufs, const S
     ys_scanner_define(sc, YS_EXT_BOOL, "xb", sp.xb, 0, nullptr);
   }
   char* t = nullptr;
-  ys_scan(R, sc, (const uint8_t*) bufs[sp.buf].data(), bufs[sp.buf].size(), &o, &t);
+  double t0 = now_s();
+  int rc = ys_scan(R, sc, (const uint8_t*) bufs[sp.buf].data(), bufs[sp.buf].size(), &o, &t);
+  double wall = now_s() - t0;
   std::string s = t;
   ys_free(t);
   if (sc)
     ys_scanner_free(sc);
+  if (rc == 26 && sp.timeout > 0)
+  {
+    // a timeout is a statement about wall-clock seconds of THIS scan.  Under load a scan may honestly
+    // run out of time; that is inconclusive.  Timing out after less than half the allowance is not.
+    if (wall < sp.timeout / 2.0)
+      return strf("TIMEOUT-TOO-EARLY: the scan was stopped with ERROR_SCAN_TIMEOUT after %.2f s of wall-clock time although its timeout is %d s\n", wall, sp.timeout);
+    return "TIMEOUT-INCONCLUSIVE\n";
+  }
   return s;
 }
 
@@ -109,9 +124,28 @@ std::string run_case(Src& s, CaseInfo& ci)
   std::vector<bytes> bufs = {g_samples.pe, g_samples.elf, "xx abc abbbcd abc a\0c\0 yy", "", g_samples.pe2.substr(0, 8000)};
   bufs[2] = bytes("xx abc abbbcd abc a\0" "b\0" "c\0 yy", 27);
   bufs.push_back(gen_set_buffer(s, gs, 1500));
+  const int BIG = (int) bufs.size();
+  {
+    bytes big(3 << 20, '\0');  // rule `slow` walks it in 64-byte steps: a scan that keeps a core busy for a while
+    uint32_t x = 12345;
+    for (auto& ch : big)
+    {
+      x = x * 1664525u + 1013904223u;
+      ch = (char) (x >> 24);
+    }
+    bufs.push_back(big);
+  }
+  const int HOT = (int) bufs.size();
+  bufs.push_back(bytes(1000100, '\x1f'));  // $h of rule `hot` passes YR_MAX_STRING_MATCHES; the callback says continue
 
   static const int TC[] = {1, 2, 3, 4, 8, 16, 32};
   int nthreads = TC[s.weighted({5, 25, 15, 20, 15, 12, 8})];
+  // 0: ordinary plan; 1: every thread also runs one CPU-heavy scan with a timeout far above its needs
+  // (a scan's timeout must not be consumed by what other threads do); 2: one thread drives a string
+  // over the match limit while the others scan the same string
+  int heavy = (int) s.weighted({90, 0, 10});  // (mode 1 lives in the fixed case `timeouts-are-per-scan`)
+  if (heavy == 2 && nthreads > 4)
+    nthreads = 4;
   std::vector<std::vector<ScanSpec>> plan(nthreads);
   int features = 0;
   for (int t = 0; t < nthreads; t++)
@@ -120,7 +154,7 @@ std::string run_case(Src& s, CaseInfo& ci)
     for (size_t k = 0; k < nscans; k++)
     {
       ScanSpec sp;
-      sp.buf = (int) s.range(0, bufs.size() - 1);
+      sp.buf = (int) s.range(0, BIG - 1);
       sp.entry = (int) s.weighted({60, 20, 20});  // mem, file (memory-mapped), fd
       sp.scanner = s.coin(60);
       if (sp.scanner)
@@ -158,14 +192,35 @@ std::string run_case(Src& s, CaseInfo& ci)
       features |= 1 | 2;  // the fixed rules always use the regexp VM and modules
       plan[t].push_back(sp);
     }
+    if (heavy == 1)
+    {
+      ScanSpec sp;
+      sp.buf = BIG;
+      sp.scanner = true;
+      sp.timeout = 4;
+      plan[t].insert(plan[t].begin(), sp);
+    }
+    if (heavy == 2)
+    {
+      ScanSpec sp;
+      sp.buf = t == 0 ? HOT : 2;
+      sp.scanner = t % 2 == 0;
+      sp.yield_us = t == 0 ? 0 : -1;
+      plan[t].insert(plan[t].begin(), sp);
+      if (t != 0)
+        for (int k = 0; k < 6; k++) plan[t].push_back(sp);
+    }
   }
   int repeats = (int) s.range(1, 3);
+  if (heavy)
+    repeats = 1;
 
   ci.desc = "rules: fixed set (props/c09.cpp) + namespace gen:\n";
   for (auto& u : units)
     if (u.ns == "gen")
       ci.desc += u.text;
-  ci.desc += strf("%d threads, plan repeated %d times:\n", nthreads, repeats);
+  ci.desc += strf("%d threads, plan repeated %d times%s:\n", nthreads, repeats,
+                  heavy == 1 ? ", each thread first scans 3 MiB with rule `slow` (timeout 4 s)" : heavy == 2 ? ", thread 0 first scans 1000100 x 0x1f (rule `hot` over the match limit)" : "");
   for (int t = 0; t < nthreads && t < 6; t++)
     for (auto& sp : plan[t])
       ci.desc += strf(" t%d: buf%d(%zu bytes) entry=%d %s xi=%d xs=%d script=%d@%d yield=%d blob%d flags=%d%s\n", t, sp.buf, bufs[sp.buf].size(),
@@ -187,8 +242,20 @@ std::string run_case(Src& s, CaseInfo& ci)
   }
   // single-threaded reference results
   std::vector<std::vector<std::string>> ref(nthreads);
-  for (int t = 0; t < nthreads; t++)
-    for (auto& sp : plan[t]) ref[t].push_back(one_scan(R.r, bufs, sp));
+  {
+    // identical scans have identical reference results: compute each once
+    std::map<std::string, std::string> memo;
+    for (int t = 0; t < nthreads; t++)
+      for (auto& sp : plan[t])
+      {
+        std::string key = strf("%d/%d/%d/%d/%d/%d/%d/%d/%d/%d/%d/%d/%d", sp.buf, sp.entry, (int) sp.scanner, sp.xi, sp.xs, (int) sp.xb, sp.script_k,
+                               sp.script_action, sp.blob, sp.flags, (int) sp.sigbus, sp.timeout, sp.yield_us != 0);
+        auto it = memo.find(key);
+        if (it == memo.end())
+          it = memo.emplace(key, one_scan(R.r, bufs, sp)).first;
+        ref[t].push_back(it->second);
+      }
+  }
 
   std::string failure;
   bool overlapped = false;
@@ -217,7 +284,12 @@ std::string run_case(Src& s, CaseInfo& ci)
           overlapped = true;
     for (int t = 0; t < nthreads && failure.empty(); t++)
       for (size_t k = 0; k < plan[t].size(); k++)
-        if (got[t][k] != ref[t][k])
+        if (got[t][k] == "TIMEOUT-INCONCLUSIVE\n" || ref[t][k] == "TIMEOUT-INCONCLUSIVE\n")
+        {
+          ci.classes.push_back("inconclusive:honest-timeout-under-load");
+          continue;
+        }
+        else if (got[t][k] != ref[t][k])
         {
           failure = strf("thread %d, scan %zu reports something else than the same scan run alone (%d threads):\n--- alone\n%s--- concurrent\n%s",
                          t, k, nthreads, ref[t][k].substr(0, 1200).c_str(), got[t][k].substr(0, 1200).c_str());
@@ -233,7 +305,120 @@ std::string run_case(Src& s, CaseInfo& ci)
     ci.classes.push_back("memory-mapped-file-scan");
   if (features & 16)
     ci.classes.push_back("aborted/failed-scan-among-them");
+  if (heavy == 1)
+    ci.classes.push_back("cpu-heavy-scans-with-timeout");
+  if (heavy == 2)
+    ci.classes.push_back("string-over-the-match-limit-in-one-thread");
   return failure;
 }
 
-std::vector<FixedCase> fixed_cases() { return {}; }
+// A scan's timeout counts the seconds of THAT scan.  Sixteen threads, each with its own scanner and a
+// 3 s timeout, scan 3 MiB with a rule that keeps a core busy for a fraction of a second.  Run as a
+// fixed case (before the 16 worker processes start) so that the threads really run in parallel.
+static std::string timeouts_are_per_scan(CaseInfo& ci)
+{
+  std::vector<SourceUnit> units = {SourceUnit{"default", fixed_rules(), YS_ADD_STRING}};
+  Rules R;
+  CompileResult cr = compile_units(units, R, gset_exts());
+  if (cr.errors || cr.rc)
+    return "fixed rule set rejected: " + cr.diag;
+  std::vector<bytes> bufs(1, bytes(3 << 20, '\0'));
+  uint32_t x = 12345;
+  for (auto& ch : bufs[0])
+  {
+    x = x * 1664525u + 1013904223u;
+    ch = (char) (x >> 24);
+  }
+  ScanSpec sp;
+  sp.buf = 0;
+  sp.scanner = true;
+  sp.timeout = 3;
+  std::string ref = one_scan(R.r, bufs, sp);
+  const int N = 16;
+  std::vector<std::string> got(N);
+  std::atomic<bool> go_flag{false};
+  std::vector<std::thread> th;
+  for (int t = 0; t < N; t++)
+    th.emplace_back([&, t]() {
+      while (!go_flag.load()) std::this_thread::yield();
+      got[t] = one_scan(R.r, bufs, sp);
+    });
+  go_flag = true;
+  for (auto& t : th) t.join();
+  ci.desc = "16 threads x (own scanner, timeout 3 s) scanning 3 MiB with the fixed rule set (rule `slow`)";
+  ci.sub_evals = N;
+  for (int t = 0; t < N; t++)
+  {
+    if (got[t].rfind("TIMEOUT-TOO-EARLY:", 0) == 0)
+      return strf("thread %d: %s", t, got[t].c_str());
+    if (got[t] == "TIMEOUT-INCONCLUSIVE\n" || ref == "TIMEOUT-INCONCLUSIVE\n")
+      continue;  // an honest timeout on an overloaded machine
+    if (got[t] != ref)
+      return strf("thread %d reports something else than the same scan run alone:\n--- alone\n%s--- concurrent\n%s", t,
+                  ref.substr(0, 600).c_str(), got[t].substr(0, 600).c_str());
+  }
+  return "";
+}
+
+// One thread drives a string over YR_MAX_STRING_MATCHES (the callback answers "continue", so that string is
+// muted for the rest of THAT scan) while three others keep scanning small buffers that contain the same
+// string: their results must not change, and nothing they share may be written (TSan).
+static std::string match_limit_is_private(CaseInfo& ci)
+{
+  std::vector<SourceUnit> units = {SourceUnit{"default", fixed_rules(), YS_ADD_STRING}};
+  Rules R;
+  CompileResult cr = compile_units(units, R, gset_exts());
+  if (cr.errors || cr.rc)
+    return "fixed rule set rejected: " + cr.diag;
+  std::vector<bytes> bufs = {bytes(1000100, '\x1f'), bytes("\x1f\x1f abc \x1f\x1f\x1f xx", 15)};
+  ScanSpec hot, small;
+  hot.buf = 0;
+  hot.scanner = true;
+  small.buf = 1;
+  std::string ref_hot = one_scan(R.r, bufs, hot), ref_small = one_scan(R.r, bufs, small);
+  small.scanner = true;
+  std::string ref_small_sc = one_scan(R.r, bufs, small);
+  if (ref_hot.find("T default:hot $h") == std::string::npos)
+    return "harness: the hot buffer does not reach the match limit";
+  std::atomic<bool> go_flag{false}, done{false};
+  std::string failure;
+  std::mutex mu;
+  long scans = 0;
+  std::vector<std::thread> th;
+  th.emplace_back([&]() {
+    while (!go_flag.load()) std::this_thread::yield();
+    std::string g = one_scan(R.r, bufs, hot);
+    done = true;
+    if (g != ref_hot)
+    {
+      std::lock_guard<std::mutex> l(mu);
+      failure = "the scan that passes the match limit reports something else than when run alone";
+    }
+  });
+  for (int t = 1; t < 4; t++)
+    th.emplace_back([&, t]() {
+      ScanSpec sp = small;
+      sp.scanner = t % 2 == 0;
+      const std::string& want = sp.scanner ? ref_small_sc : ref_small;
+      while (!go_flag.load()) std::this_thread::yield();
+      for (int k = 0; k < 200000 && !done.load(); k++)
+      {
+        std::string g = one_scan(R.r, bufs, sp);
+        std::lock_guard<std::mutex> l(mu);
+        scans++;
+        if (g != want && failure.empty())
+          failure = strf("thread %d, scan %d of a 15-byte buffer while another thread is over the match limit:\n--- alone\n%s--- concurrent\n%s", t, k,
+                         want.substr(0, 500).c_str(), g.substr(0, 500).c_str());
+      }
+    });
+  go_flag = true;
+  for (auto& t : th) t.join();
+  ci.desc = strf("1 thread scanning 1000100 x 0x1f (rule `hot` over the match limit) + 3 threads scanning a 15-byte buffer %ld times meanwhile", scans);
+  ci.sub_evals = (int) std::min<long>(scans, 1000000) + 1;
+  return failure;
+}
+
+std::vector<FixedCase> fixed_cases()
+{
+  return {{"timeouts-are-per-scan", timeouts_are_per_scan}, {"match-limit-is-private", match_limit_is_private}};
+}
